@@ -359,10 +359,14 @@ func runC14(r *ev.Run) {
 	// four compute nodes of three entities, one node per entity allowed: the raw pool (4) meets the
 	// minimum pool size, the pool after the per-entity limit (3) does not
 	rt6 := chain.GenesisOptions{EpochInterval: 2, MaxValidators: 3, NoRewards: true, NodeExpiration: 14, Runtime: true, RtGroupSize: 2, RtMinPool: 4, RtMaxNodesPerEnt: 1, ExtraNodes: true, MaxPerEntity: 2}
+	// a second deployment becomes active at epoch 3; node 1 serves the superseded version only:
+	// group size 2 -> committee of nodes 0 and 2; (rt8) group size 3 -> no committee
+	rt7 := chain.GenesisOptions{EpochInterval: 2, MaxValidators: 3, NoRewards: true, NodeExpiration: 14, Runtime: true, RtGroupSize: 2, RtTwoVersions: true}
+	rt8 := chain.GenesisOptions{EpochInterval: 2, MaxValidators: 3, NoRewards: true, NodeExpiration: 14, Runtime: true, RtGroupSize: 3, RtMinPool: 3, RtTwoVersions: true}
 	rt5 := chain.GenesisOptions{EpochInterval: 2, MaxValidators: 3, NoRewards: true, NodeExpiration: 14, Runtime: true, RtGroupSize: 3, RtMinPool: 1, NodeExpirations: []uint64{14, 3, 14}} // pool falls below the group size
-	variants = append(variants, rt1, rt2, rt3, rt4, rt5, rt6)
+	variants = append(variants, rt1, rt2, rt3, rt4, rt5, rt6, rt7, rt8)
 	if !r.Thorough() {
-		variants = []chain.GenesisOptions{variants[2], variants[3], variants[5], variants[6], variants[7], tiny, tiny2, rt1, rt2, rt3, rt4, rt5, rt6}
+		variants = []chain.GenesisOptions{variants[2], variants[3], variants[5], variants[6], variants[7], tiny, tiny2, rt1, rt2, rt3, rt4, rt5, rt6, rt7, rt8}
 	}
 	depth := 2
 	if r.Thorough() {
